@@ -274,6 +274,10 @@ struct Config {
     compile_in: u8,  // 0 file, 1 stdin
     compile_fmt: u8, // 0 explicit, 1 inferred
     exec_in: u8,     // 0 file, 1 stdin
+    /// output files already exist with longer, stale content
+    prefill: bool,
+    /// with an explicit format, give the AST file the extension of another format
+    misleading_ext: bool,
 }
 
 fn random_config(rng: &mut Rng) -> Config {
@@ -286,6 +290,8 @@ fn random_config(rng: &mut Rng) -> Config {
         compile_in: rng.below(2) as u8,
         compile_fmt: rng.below(2) as u8,
         exec_in: rng.below(2) as u8,
+        prefill: rng.coin(),
+        misleading_ext: rng.chance(1, 3),
     };
     // combinations the CLI cannot express: the format can only be inferred from a file name
     if c.parse_out != 0 {
@@ -322,8 +328,13 @@ fn c06_cli(rep: &mut Report, origin: &str, src: &str, ast: &AST, cfg: &Config, d
     }
     let ext = match cfg.parse_fmt {
         2 => fname.to_uppercase(),
+        // explicit format: the file name may carry no or a *misleading* extension; the explicit
+        // flag must win in both stages
+        0 if cfg.misleading_ext => FORMATS[(cfg.fmt + 1 + (idx % 2) as usize) % 3].0.to_string(),
+        0 if idx % 5 == 0 => "txt".to_string(),
         _ => fname.to_string(),
     };
+    let junk: Vec<u8> = std::iter::repeat(b"stale output from an earlier run\n".to_vec()).take(600).flatten().collect();
     // --- parse
     let mut args: Vec<String> = vec!["parse".into()];
     if cfg.parse_in == 0 {
@@ -332,6 +343,9 @@ fn c06_cli(rep: &mut Report, origin: &str, src: &str, ast: &AST, cfg: &Config, d
     let ast_path = match cfg.parse_out {
         0 => {
             let p = d.join(format!("ast.{}", ext));
+            if cfg.prefill {
+                let _ = std::fs::write(&p, &junk);
+            }
             args.push("-o".into());
             args.push(p.to_str().unwrap().into());
             Some(p)
@@ -395,7 +409,7 @@ fn c06_cli(rep: &mut Report, origin: &str, src: &str, ast: &AST, cfg: &Config, d
     if let Some(pth) = &compile_input {
         args.push(pth.to_str().unwrap().into());
     }
-    let explicit = cfg.compile_fmt == 0 || compile_input.is_none();
+    let explicit = cfg.compile_fmt == 0 || compile_input.is_none() || ext.to_lowercase() != fname;
     if explicit {
         args.push("--input-format".into());
         args.push(fname.to_string());
@@ -403,6 +417,9 @@ fn c06_cli(rep: &mut Report, origin: &str, src: &str, ast: &AST, cfg: &Config, d
     let bc_path = match cfg.compile_out {
         0 => {
             let pth = d.join("prog.bc");
+            if cfg.prefill {
+                let _ = std::fs::write(&pth, &junk);
+            }
             args.push("-o".into());
             args.push(pth.to_str().unwrap().into());
             Some(pth)
@@ -434,6 +451,8 @@ fn c06_cli(rep: &mut Report, origin: &str, src: &str, ast: &AST, cfg: &Config, d
     rep.bump("c06-config-compile-in", ["file", "stdin"][cfg.compile_in as usize]);
     rep.bump("c06-config-compile-format", if explicit { "explicit" } else { "inferred" });
     rep.bump("c06-config-execute-in", ["file", "stdin"][cfg.exec_in as usize]);
+    rep.bump("c06-config-output-preexists", if cfg.prefill { "yes" } else { "no" });
+    rep.bump("c06-config-extension", if ext.to_lowercase() == fname { "matches-format" } else { "misleading-or-none" });
     rep.bump("c06-pairs", &format!("{}/parse-out-{}", fname, cfg.parse_out));
     rep.bump("c06-pairs", &format!("{}/compile-in-{}", fname, cfg.compile_in));
     rep.bump("c06-pairs", &format!("{}/compile-out-{}", fname, cfg.compile_out));
